@@ -1,13 +1,21 @@
 import Desert.Lemmas.EnumLemmas
+import Desert.Lemmas.EncTotal
 /-!
-# C17 — encoding never panics: unsupported values are reported as errors (partial)
+# C17 — encoding never panics: unsupported values are reported as errors
 
-The encoder model carries the explicit panic points of the Rust writer (`illTyped` stands for a
-value that does not inhabit the Rust type at all; `> 254 steps` for `AdtMetadata::new`'s documented
-panic; the string-id counter). Proved: the error table for the documented failure causes, and that
-no leaf codec panics on a value of its type. Not proved: panic-freedom of the composite encoder on
-all well-typed values (needs a typing judgement); the `ty` / `decl` families run every generated
-value under `catch_unwind`.
+The encoder model carries the explicit panic points of the Rust writer: `illTyped` stands for a
+value that does not inhabit the Rust type at all (what the Rust type checker excludes),
+`> 254 steps` for `AdtMetadata::new`'s documented panic, and the `i32` string-id counter.
+
+Proved: `encode_never_panics` — for every environment within the documented limit of 255 versions
+per declaration (`envStepsOKb`), every type and **every well-typed value** (`hasTy`,
+Desert/Typing.lean), with any string table, the encoder returns bytes or an error; the single
+panic it can still reach is the overflow of the string-id counter after 2^31 - 1 distinct
+deduplicated strings in one stream (`overflow_needs_full_table`; more than 2 GiB of input).
+The "unreachable" header branches (removed / transient step without a pre-serialised name) are
+shown unreachable (`preNames_covers'`). Plus the error table for the documented failure causes and
+"no bytes on failure" for the top-level entry point. The `ty` / `decl` / `chars` / `limits`
+families run every generated value under `catch_unwind` and compare the error variant.
 -/
 set_option linter.unusedVariables false
 set_option linter.unusedSimpArgs false
@@ -78,5 +86,43 @@ similar case splits and are exercised by the `ty` family) -/
 theorem int_never_panics (w : Nat) (sg : Bool) (n : Int) (st : EncSt) (hr : intInRange w sg n = true) :
     ∃ b, encPrim (.int w sg) (.int n) st = .ok (b, st) := by
   simp [encPrim, hr]
+
+/-- **encoding never panics** on a well-typed value, up to the string-id counter -/
+theorem encode_never_panics (env : Env) (henv : envStepsOKb env = true) (ty : Ty) (v : Val) (st : EncSt)
+    (hty : hasTy env ty v = true) : ∀ w, enc env ty v st = .panic w → w = "attempt to add with overflow" :=
+  (enc_total env henv v).1 ty st hty
+
+/-- the same for the top-level entry point -/
+theorem encodeTop_never_panics (env : Env) (henv : envStepsOKb env = true) (ty : Ty) (v : Val)
+    (hty : hasTy env ty v = true) : ∀ w, encodeTop env ty v = .panic w → w = "attempt to add with overflow" := by
+  intro w h
+  unfold encodeTop at h
+  cases hx : enc env ty v [] with
+  | ok r => simp [hx] at h
+  | err e => simp [hx] at h
+  | panic w' => simp [hx] at h; subst h; exact encode_never_panics env henv ty v [] hty _ hx
+
+/-- the remaining panic needs a table that already holds 2^31 - 1 strings -/
+theorem overflow_needs_full_table (bs : Bytes) (st : EncSt) (w : String) (h : encDString bs st = .panic w) :
+    2 ^ 31 - 1 ≤ st.length := by
+  unfold encDString at h
+  cases hi : indexOf? st bs with
+  | some i => simp [hi] at h
+  | none =>
+    simp only [hi] at h
+    by_cases hl : st.length < 2 ^ 31 - 1
+    · simp only [hl, if_true] at h
+      unfold encString at h
+      split at h <;> simp at h
+    · omega
+
+/-- non-vacuity: the `Point` value of `derivation.rs` is well-typed in a conforming environment -/
+example : envStepsOKb [("Point", .record ⟨"Point", [⟨"x", .prim (.int 4 true), .plain, some (.int 0)⟩,
+      ⟨"y", .prim (.int 4 true), .plain, none⟩, ⟨"_cached_str", .option (.prim .string), .transient, some .none⟩],
+      [.added "x", .removed "z"]⟩)] = true ∧
+    hasTy [("Point", .record ⟨"Point", [⟨"x", .prim (.int 4 true), .plain, some (.int 0)⟩,
+      ⟨"y", .prim (.int 4 true), .plain, none⟩, ⟨"_cached_str", .option (.prim .string), .transient, some .none⟩],
+      [.added "x", .removed "z"]⟩)] (.named "Point")
+      (.list (.vcons (.int 1) (.vcons (.int (-10)) (.vcons .none .vnil)))) = true := by decide
 
 end C17
